@@ -35,6 +35,11 @@ M = [
  ("own: rpms 0.3 src table looked up by variant of the first entry", "rpms.py",
   'srpm_data = payload[variant].get("src", {}).get(srpm_nevra, None)',
   'srpm_data = payload[sorted(payload)[0]].get("src", {}).get(srpm_nevra, None)'),
+ ("own(audit): Images.__getitem__ creates the variant it is asked for", "images.py",
+  '    def __getitem__(self, variant):\n        return self.images[variant]', '    def __getitem__(self, variant):\n        return self.images.setdefault(variant, {})'),
+ ("own(audit): Rpms.add also refuses noarch", "rpms.py", '        if arch in ["src", "nosrc"]:', '        if arch in ["src", "nosrc", "noarch"]:'),
+ ("own(audit): Rpms.deserialize_0_3 keeps the mapping of an earlier load", "rpms.py",
+  '        payload = data["payload"]["manifest"]\n        self.rpms = {}\n', '        payload = data["payload"]["manifest"]\n'),
  ("own: Images.add lower-cases before the source check only", "images.py",
   '        if arch in ["src", "nosrc"]:\n            raise ValueError("Source arch is not allowed. Map source files under binary arches.")\n        if self.header',
   '        if arch.upper() in ["SRC"]:\n            raise ValueError("Source arch is not allowed. Map source files under binary arches.")\n        if self.header'),
